@@ -55,7 +55,7 @@ RULE = (
     "line number or a list/null filepath); distinct = digest of the (path-normalised) minimal JSON + configuration"
 )
 ASSUMPTIONS = [
-    "equivalence of expressions is judged by str() and by canonical_path of their names (parse-equivalence of str() is C03)",
+    "equivalence of expressions is judged by str() and by canonical_path/path of their names (parse-equivalence of str() is C03); ExprName.canonical_path is public API, so a scope change of a reloaded expression is observable and counts",
     "loading (GriffeLoader.load / resolve_aliases) is trusted; a package that fails to load is skipped and counted (load-error:*)",
     "the importable flavour is really imported by CPython in-process (unique temp dir, sys.modules purged afterwards)",
     "alias resolution never loads external packages (external=False / default None) to keep cases small",
@@ -965,6 +965,23 @@ def _known_init_forwarded_annotation(case, fail: Fail) -> bool:
     def init_form(entry: str) -> bool:
         return bool(re.fullmatch(r"(\w+)->[\w.]+\(\1\)", entry) or re.fullmatch(r"(\w+)->[\w.]+\.__init__\.\1", entry))
 
+    def classes(stmts):
+        for stmt in stmts:
+            if stmt[0] == "class":
+                yield stmt[2]
+                yield from classes(stmt[2]["body"])
+            elif stmt[0] == "func":
+                yield from classes(stmt[2].get("inner", ()))
+
+    pkgs = case.get("pkgs") or ([case["pkg"]] if "pkg" in case else [])
+    specs = [spec for pkg in pkgs for m in pkg["mods"].values() if m for spec in classes(m["body"])]
+    inits = lambda spec: [st_ for st_ in spec["body"] if st_[0] == "func" and st_[1] == "__init__"]  # noqa: E731
+    double_init = any(len(inits(spec)) > 1 for spec in specs)  # shape (b)
+    forwarding = any(  # shape (a): class-level annotated attribute + assignment without annotation in __init__
+        st_[0] == "attr" and st_[2] is not None and any(sa[0] == st_[1] and sa[1] is None for init in inits(spec) for sa in init[2]["selfattrs"])
+        for spec in specs
+        for st_ in spec["body"]
+    )
     diffs = _name_diffs(fail)
     if not diffs:
         return False
@@ -973,9 +990,11 @@ def _known_init_forwarded_annotation(case, fail: Fail) -> bool:
             return False
         for x, y in pairs:
             name = x.partition("->")[0]
-            if init_form(x) != init_form(y):
+            lost = (init_form(x) and not init_form(y)) or y == f"{x}.{name}"  # __init__ scope before, class scope after
+            gained = (init_form(y) and not init_form(x)) or x == f"{y}.{name}"  # class scope before, __init__ scope after
+            if lost and double_init:
                 continue
-            if y.startswith(name + "->") and (x == f"{y}.{name}" or y == f"{x}.{name}"):
+            if gained and forwarding and "annotation" in where:
                 continue
             return False
     return True
